@@ -152,6 +152,10 @@ type Tracer struct {
 	Depth int // max call depth entered
 	// Opaque lists module callees (by short funcName) that are NOT entered: they become call leaves.
 	Opaque map[string]bool
+	// Live, when set, restricts phi expansion in the function it was computed for to its live edges
+	// (origins under an abstract assumption, see ordering.go).
+	Live   *Live
+	LiveFn *ssa.Function
 }
 
 func (w *World) Tracer() *Tracer {
@@ -314,7 +318,10 @@ func (st *tstate) trace(v ssa.Value, path []string, c *tctx) {
 		st.trace(x.Y, nil, c)
 	case *ssa.Phi:
 		st.o.Phis[x] = true
-		for _, e := range x.Edges {
+		for i, e := range x.Edges {
+			if st.t.Live != nil && x.Parent() == st.t.LiveFn && !st.t.Live.PredLive(x.Block(), i) {
+				continue
+			}
 			st.trace(e, path, c)
 		}
 	case *ssa.Extract:
